@@ -46,7 +46,7 @@ def load_refs(R):
     for a, t in dict(cluster_name=TOpt(TStr), fn=TObj(), qualified_name_without_version=TStr, __module__=TStr, __name__=TStr, parameters=TObj("nn:mapping")).items():
         R.attr(a, t)
     for n, (a, r) in dict(version_of=([TObj()], TStr), normalized=([TObj()], TObj()), sig_of=([TObj()], TObj()), keys_of=([TObj()], TObj()), aslist=([TObj()], TObj()),
-                          astuple=([TObj()], TObj()), found_fn=([TStr, TStr, TOpt(TStr)], TObj())).items():
+                          astuple=([TObj()], TObj()), found_fn=([TStr, TStr, TOpt(TStr)], TObj()), py_eq=([TObj(), TObj()], TBool)).items():
         R.uf(n, a, r)
     ufs = {k: v[0] for k, v in R.ufs.items()}
     R.entity("FunctionReference", ("reference", "FunctionReference"), dict(
@@ -139,7 +139,9 @@ def load_lookup(R):
                ensures=["self._fn_reference is not None and self._fn_reference.external",
                         # the stub's reference carries exactly the name it was asked for -- in the default cluster as well as in a named one
                         "self._fn_reference._qualified_name == BUILD(cluster_name, module_name, function_name, version)",
-                        "self._version == version"],
+                        "self._version == version",
+                        # ... and the parameter names that were recorded with the stored reference
+                        "same(self._fn_reference.parameter_names, parameter_names)"],
                modifies=["self.*"])
     R.contract("reference:FunctionReference.from_qualified_name", prop="C12", ghost_params=GP,
                types={"qualified_name": TStr, "partial_args": TObj(), "partial_kwargs": TObj(), "parameter_names": TObj(), "external": TBool}, returns=TOpt(FRE),
@@ -147,4 +149,8 @@ def load_lookup(R):
                # reading a stored name never raises, whichever of {module missing, attribute missing, not a memento function, version mismatch} happens
                ensures=["result is not None",
                         "implies(result.external, result._qualified_name == qualified_name)",
-                        "implies(external, result.external)"])
+                        "implies(external, result.external)",
+                        # from the property ("an entry whose own version is current is served ... references to versions that no longer exist are reported as
+                        # external references"): the parameter names recorded with a stored reference are the names its stored arguments bind to -- a function found
+                        # under the same name and version but with another signature is not the recorded one
+                        "implies(parameter_names is not None and truthy(parameter_names), same(result.parameter_names, parameter_names) or py_eq(result.parameter_names, parameter_names))"])
